@@ -77,6 +77,17 @@ impl<'tcx> Cx<'tcx> {
         match c.const_ {
             Const::Unevaluated(uv, _) => {
                 if let Some(p) = uv.promoted { let _ = write!(s, ",\"promoted\":{},\"promoted_of\":{}", p.as_usize(), esc(&self.tcx.def_path_str(uv.def))); }
+                else if t.is_ref() {
+                    // a named constant (e.g. `const SEP: &str = "!!!"`): evaluate it so that string constants keep their bytes
+                    let env = ty::TypingEnv::post_analysis(self.tcx, self.owner);
+                    if let Ok(v) = c.const_.eval(self.tcx, env, rustc_span::DUMMY_SP) {
+                        if matches!(v, ConstValue::Slice { .. }) {
+                            if let Some(bytes) = v.try_get_slice_bytes_for_diagnostics(self.tcx) {
+                                let _ = write!(s, ",\"bytes\":[{}]", bytes.iter().map(|b| b.to_string()).collect::<Vec<_>>().join(","));
+                            }
+                        }
+                    }
+                }
             }
             Const::Val(v, _) if matches!(v, ConstValue::Slice { .. }) => {
                 if let Some(bytes) = v.try_get_slice_bytes_for_diagnostics(self.tcx) {
